@@ -1074,6 +1074,7 @@ fn gen_c08(cfg: &GenCfg, rng: &mut Rng, w: &mut dyn Write, kind: &str) {
             }
         }
         writeln!(w, "audit").unwrap();
+        writeln!(w, "bigcount 3").unwrap();
         writeln!(w, "op q0 {} {} {}", rng.pick(&BIN_OPS), rng.pick(&pool), rng.pick(&pool)).unwrap();
         writeln!(w, "dropballast").unwrap();
     }
